@@ -67,14 +67,14 @@ Definition obs_same_class (a b : obs) : bool :=
 Definition name_code (n : oor_name) : Z :=
   match n with
   | NYear => 1 | NMonth => 2 | NDay => 3 | NDoy => 4 | NHour => 5 | NMinute => 6 | NSecond => 7
-  | NSeconds => 8 | NNanoseconds => 9 | NValue => 10 | NTimestamp => 11 | NCustom => 12
+  | NSeconds => 8 | NNanoseconds => 9 | NValue => 10 | NTimestamp => 11 | NCustom => 12 | NYearZero => 1
   end.
 
 (* observation of a model result whose Ok payload is rendered by f *)
 Definition obs_of {A} (f : A -> obs) (r : res A) : obs :=
   match r with
   | Ok a => f a
-  | Err (EOor n a b v) => OErr 1 [name_code n; a; b; v; (if match n with NCustom => true | _ => false end then 1 else 0)]
+  | Err (EOor n a b v) => OErr 1 [name_code n; a; b; v; (if match n with NCustom | NYearZero => true | _ => false end then 1 else 0)]
   | Err EFmt => OErr 2 []
   | Panic => OPanic
   end.
